@@ -1,7 +1,8 @@
 // C13 harness: line protocol over the REAL lzma_index_* / lzma_index_hash_* / lzma_file_info_decoder API.
 // One result line per op. Index slots 0..7, iterator slots 0..3, one index_hash.
 //
-//   init k | end k | sum k
+//   reset | init k | end k | sum k
+//   appendn k <count> <unpadded> <uncompressed>  -> "<ret> <done> S ..."   (stops at the first failure)
 //   append k <unpadded> <uncompressed>          -> "<ret> S ..."
 //   flags k <version> <backward_size> <check>   -> "<ret> S ..."
 //   padding k <n>                               -> "<ret> S ..."
@@ -109,6 +110,24 @@ int main(void)
 			drop(k);
 			idx[k] = lzma_index_init(&h_allocator);
 			printf("ok "); put_sum(idx[k]); printf("\n");
+		} else if (!strcmp(op, "reset") && n == 1) {
+			for (int k = 0; k < NSLOT; ++k) drop(k);
+			for (int t = 0; t < NITER; ++t) iters[t].inited = false;
+			lzma_index_hash_end(hash, &h_allocator);
+			hash = NULL;
+			printf("ok\n");
+		} else if (!strcmp(op, "appendn") && n == 5 && slot_of(l.tok[1]) >= 0) {
+			// <count> identical appends, stops at the first failure: "<ret> <done> S"
+			int k = slot_of(l.tok[1]);
+			if (idx[k] == NULL) { printf("null\n"); continue; }
+			uint64_t cnt = hp_u64(l.tok[2]), done = 0;
+			lzma_ret r = LZMA_OK;
+			while (done < cnt) {
+				r = lzma_index_append(idx[k], &h_allocator, hp_u64(l.tok[3]), hp_u64(l.tok[4]));
+				if (r != LZMA_OK) break;
+				++done;
+			}
+			printf("%d %" PRIu64 " ", (int)r, done); put_sum(idx[k]); printf("\n");
 		} else if (!strcmp(op, "end") && n == 2 && slot_of(l.tok[1]) >= 0) {
 			drop(slot_of(l.tok[1]));
 			printf("ok\n");
